@@ -965,6 +965,8 @@ Section Reach.
     f_old : forall x', In x' (sets_of st) -> (exists x, In x (sets_of st0) /\ sid x' = sid x) \/ created es x';
     f_keep : forall x, In x (sets_of st0) -> (forall r, ~ In (DDelete (sname x) r) es) ->
                        exists x', In x' (sets_of st) /\ sid x' = sid x /\ os_deleting (ds_set x') = os_deleting (ds_set x);
+    f_same : forall x, In x (sets_of st0) -> (forall life pbp r, ~ In (DUpdate (sname x) life pbp r) es) ->
+                       (forall r, ~ In (DDelete (sname x) r) es) -> In x (sets_of st);
     f_new : forall n phs prev h r, In (DCreate n phs prev h r) es -> (r = CrOk \/ r = CrLost) -> (forall r', ~ In (DDelete n r') es) ->
                        exists x', In x' (sets_of st) /\ sname x' = n /\ created es x' /\ os_deleting (ds_set x') = false;
     f_store : w_store (dw_w (p_w st)) = w_store (dw_w (p_w st0));
@@ -1000,6 +1002,10 @@ Section Reach.
       destruct (f_keep _ _ _ F2 x1 Hx1) as (x2 & Hx2 & E2 & D2).
       { intros r Hr. apply (Hnd r). apply in_or_app. right. now rewrite <- En. }
       exists x2. repeat split; congruence.
+    - intros x Hx Hnu Hnd. apply (f_same _ _ _ F2).
+      + apply (f_same _ _ _ F1); [assumption| |]; intros; intro Hi; [eapply Hnu|eapply Hnd]; apply in_or_app; left; exact Hi.
+      + intros life pbp r Hi. eapply Hnu. apply in_or_app. right. exact Hi.
+      + intros r Hi. eapply Hnd. apply in_or_app. right. exact Hi.
     - intros n phs prev h r Hi Hr Hnd. apply in_app_or in Hi. destruct Hi as [Hi|Hi].
       + destruct (f_new _ _ _ F1 n phs prev h r Hi Hr) as (x1 & Hx1 & En & Hc & D1).
         { intros r' Hr'. apply (Hnd r'). apply in_or_app. now left. }
@@ -1040,9 +1046,10 @@ Section Reach.
     w_store (dw_w (p_w st')) = w_store (dw_w (p_w st)) -> p_evs st' = p_evs st ++ es ->
     (forall n phs prev h r, ~ In (DCreate n phs prev h r) es) ->
     (os_deleting (ds_set s') = os_deleting (ds_set cur) \/ exists r, In (DDelete (sname cur) r) es) ->
+    ((exists life pbp r, In (DUpdate (sname cur) life pbp r) es) \/ exists r, In (DDelete (sname cur) r) es) ->
     frame st st' es.
   Proof.
-    intros Hf Hsid Hs Hd Hst He Hnc Hdel. pose proof (find_dset_some _ _ _ Hf) as [Hcin Hcn].
+    intros Hf Hsid Hs Hd Hst He Hnc Hdel Hnamed. pose proof (find_dset_some _ _ _ Hf) as [Hcin Hcn].
     constructor; unfold sets_of in *; rewrite ?Hs, ?Hd; auto.
     - intros H. now rewrite (map_put_dset sname _ cur s') by (auto; unfold sid in Hsid; congruence).
     - intros x' Hx. left. apply in_put_dset in Hx. destruct Hx as [->|Hx]; [exists cur; auto|exists x'; auto].
@@ -1050,6 +1057,8 @@ Section Reach.
       + exists s'. split; [eapply put_dset_self; eauto|]. split; [assumption|].
         destruct Hdel as [Hdel|(r & Hr)]; [assumption|]. exfalso. exact (Hnd r Hr).
       + exists x. auto.
+    - intros x Hx Hnu Hnd. destruct (put_dset_in _ _ _ _ Hf Hx) as [->|Hx']; [|assumption]. exfalso.
+      destruct Hnamed as [(life & pbp & r & Hi)|(r & Hi)]; [exact (Hnu _ _ _ Hi)|exact (Hnd _ Hi)].
     - intros n phs prev h r Hi. exfalso. exact (Hnc _ _ _ _ _ Hi).
     - repeat split; auto.
   Qed.
@@ -1064,6 +1073,7 @@ Section Reach.
       + apply (frame_put st st' _ cur (set_life cur life pbp (w_rv (dw_w (p_w st))))); unfold sets_of; try (rewrite Hw; reflexivity); auto.
         * rewrite sname_set_life. pose proof (find_dset_some _ _ _ Hf) as [_ ->]. exact Hf.
         * intros n phs prev h r0 [H|[]]. discriminate.
+        * left. exists life, pbp, r. left. pose proof (find_dset_some _ _ _ Hf) as [_ ->]. reflexivity.
   Qed.
 
   Lemma frame_del st n : exists es, frame st (del_req fault st n) es.
@@ -1077,10 +1087,12 @@ Section Reach.
         * change (sname (set_deleting s (w_rv (dw_w (p_w st))))) with (sname s). now rewrite Hn.
         * intros n0 phs prev h r0 [H|[]]. discriminate.
         * right. exists r. left. now rewrite Hn.
+        * right. exists r. left. now rewrite Hn.
       + constructor; unfold sets_of; rewrite ?Hw; cbn [with_sets dw_sets dw_dep dw_w]; auto.
         * intros H. unfold del_dset. now apply NoDup_map_filter.
         * intros x' Hx. apply in_del_dset in Hx. left. exists x'. tauto.
         * intros x Hx Hnd. exists x. split; [|auto]. apply in_del_dset. split; [assumption|]. intros E. apply (Hnd r). left. now rewrite E.
+        * intros x Hx _ Hnd. apply in_del_dset. split; [assumption|]. intros E. apply (Hnd r). left. now rewrite E.
         * intros n0 phs prev h r0 [H|[]]. discriminate.
         * repeat split; auto.
   Qed.
@@ -1101,6 +1113,7 @@ Section Reach.
         * intros H. rewrite map_app. cbn. apply NoDup_app_single; [assumption|]. rewrite Hn. now apply find_dset_none_names.
         * intros x' Hx. apply in_app_or in Hx. destruct Hx as [Hx|[<-|[]]]; [left; exists x'; auto|now right].
         * intros x Hx _. exists x. split; [apply in_or_app; now left|auto].
+        * intros x Hx _ _. apply in_or_app; now left.
         * intros n phs pv h r Hi _ _. destruct Hi as [Hi|[]]. injection Hi as <- <- <- <- <-.
           exists s'. split; [apply in_or_app; right; now left|]. auto.
         * repeat split; auto.
@@ -1114,6 +1127,7 @@ Section Reach.
         * intros H. rewrite map_app. cbn. apply NoDup_app_single; [assumption|]. rewrite Hn. now apply find_dset_none_names.
         * intros x' Hx. apply in_app_or in Hx. destruct Hx as [Hx|[<-|[]]]; [left; exists x'; auto|now right].
         * intros x Hx _. exists x. split; [apply in_or_app; now left|auto].
+        * intros x Hx _ _. apply in_or_app; now left.
         * intros n phs pv h r Hi _ _. destruct Hi as [Hi|[]]. injection Hi as <- <- <- <- <-.
           exists s'. split; [apply in_or_app; right; now left|]. auto.
         * repeat split; auto.
@@ -1589,3 +1603,182 @@ Section Histories.
     induction h as [|s r IH]; cbn; intros w HI HF; [assumption|]. inversion HF; subst. apply IH; [now apply inv_step|assumption].
   Qed.
 End Histories.
+
+(** ** Exactly one ObjectSet per template (fresh lists) *)
+Section ExactlyOne.
+  Variable hash : N -> option N -> N.
+
+  Definition cur_hash (w : dworld) : N := hash (d_digest (dw_dep w)) (d_cc (dw_dep w)).
+
+  (** "The deployment's newest ObjectSet carries the hash of the current template": [s] is selected, annotated with
+      the current hash, not being deleted, and newest: it has no revision yet, or the greatest one. *)
+  Definition matched (w : dworld) : Prop :=
+    exists s, In s (dw_sets w) /\ ds_sel s = true /\ ds_hash s = Some (cur_hash w) /\ os_deleting (ds_set s) = false /\
+      forall t, In t (dw_sets w) -> ds_sel t = true -> sname t <> sname s -> srev t <> 0%Z /\ (srev s = 0%Z \/ (srev t < srev s)%Z).
+
+  Lemma matched_listed w s :
+    NoDup (map sname (dw_sets w)) -> In s (dw_sets w) -> ds_sel s = true -> ds_hash s = Some (cur_hash w) ->
+    (forall t, In t (dw_sets w) -> ds_sel t = true -> sname t <> sname s -> srev t <> 0%Z /\ (srev s = 0%Z \/ (srev t < srev s)%Z)) ->
+    (srev s = 0%Z /\ In s (listed false w)) \/
+    ((forall t, In t (listed false w) -> srev t <> 0%Z) /\ (exists l0, listed false w = l0 ++ [s]) /\
+     has_current (dep_hashed hash w) (listed false w) = true).
+  Proof.
+    intros Hnd Hs Hsel Hh Hmax. assert (HsL : In s (listed false w)) by now apply listed_fresh_iff.
+    destruct (Z.eq_dec (srev s) 0) as [E0|E0]; [left; auto|right].
+    assert (Hlast : exists l0, listed false w = l0 ++ [s]).
+    { unfold listed. apply isort_rev_max_last.
+      - now apply NoDup_map_isort, NoDup_map_filter.
+      - unfold listed in HsL. apply isort_in in HsL. exact HsL.
+      - intros t Ht Hne. apply isort_in, filter_In in Ht. destruct Ht as [Ht Hst]. apply andb_true_iff in Hst. destruct Hst as [Hst _].
+        destruct (Hmax t Ht Hst Hne) as (_ & [H|H]); [contradiction|assumption]. }
+    split; [|split; [assumption|]].
+    - intros t Ht. apply listed_fresh_iff in Ht. destruct Ht as [Ht Hst].
+      destruct (N.eq_dec (sname t) (sname s)) as [E|E]; [|now apply (Hmax t Ht Hst E)].
+      assert (t = s) by (apply (NoDup_map_eq sname (dw_sets w)); auto). now subst.
+    - destruct Hlast as (l0 & ->). unfold has_current. rewrite rev_app_distr. cbn. rewrite Hh. apply N.eqb_refl.
+  Qed.
+
+  (** While the template is matched, a pass neither creates an ObjectSet nor touches the collision counter,
+      and the template stays matched. *)
+  Lemma matched_dep_pass fault w w' evs r :
+    Inv w -> matched w -> dep_pass hash fault false w = (w', evs, r) ->
+    (forall n phs prev h cr, ~ In (DCreate n phs prev h cr) evs) /\ matched w'.
+  Proof.
+    intros HI (s & Hs & Hsel & Hh & Hdel & Hmax) Hp. pose proof (i_nodup _ HI) as U1.
+    pose proof (matched_listed w s U1 Hs Hsel Hh Hmax) as Hcase.
+    assert (Hnc : forall n phs prev h cr, ~ In (DCreate n phs prev h cr) evs).
+    { intros n phs prev h cr Hi. destruct (create_justified _ _ _ _ _ _ _ _ _ _ _ _ U1 Hp Hi) as (_ & _ & Hn0 & Hhc & _).
+      destruct Hcase as [(E0 & HsL)|(_ & _ & Hc)]; [exact (Hn0 s HsL E0)|congruence]. }
+    split; [exact Hnc|].
+    destruct (dep_pass_frame _ _ _ _ _ _ _ Hp) as (_ & Hold & Hkeep & _ & _ & (_ & _ & _ & Hdg & _ & _ & Hcc)).
+    assert (Hcc' : d_cc (dw_dep w') = d_cc (dw_dep w)).
+    { destruct Hcc as [Hcc|(h & cs & rv & co & sr & Hi)]; [assumption|].
+      pose proof (dep_pass_justified _ _ _ _ _ _ _ U1 Hp) as HF. rewrite Forall_forall in HF. specialize (HF _ Hi). cbn in HF.
+      destruct HF as (_ & [Hc|(_ & _ & Hhc & Hn0)]); [assumption|].
+      destruct Hcase as [(E0 & HsL)|(_ & _ & Hc)]; [elim (Hn0 s HsL E0)|congruence]. }
+    destruct (Hkeep s Hs) as (s' & Hs' & Es & Ds).
+    { intros dr Hi. destruct (gc_sound _ _ _ _ _ _ _ _ _ U1 Hp Hi) as (l0 & newest & EL & _ & Hne).
+      pose proof (dep_pass_justified _ _ _ _ _ _ _ U1 Hp) as HF. rewrite Forall_forall in HF. specialize (HF _ Hi). cbn in HF.
+      destruct HF as (_ & Hn0 & _). destruct Hcase as [(E0 & HsL)|(_ & (l1 & EL1) & _)]; [exact (Hn0 s HsL E0)|].
+      rewrite EL in EL1. apply app_inj_tail in EL1. destruct EL1 as [_ ->]. now apply Hne. }
+    assert (Es' : sname s' = sname s /\ srev s' = srev s /\ ds_sel s' = ds_sel s /\ ds_hash s' = ds_hash s) by (unfold sid in Es; injection Es; auto).
+    destruct Es' as (Ns & Rs & Ss & Hs2).
+    exists s'. unfold cur_hash in *. rewrite Hdg, Hcc'. split; [assumption|]. split; [congruence|]. split; [congruence|]. split; [congruence|].
+    intros t Ht Hst Hne.
+    destruct (Hold t Ht) as [(t0 & Ht0 & Et)|Hc]; [|destruct (created_event _ _ Hc) as (rr & Hi); elim (Hnc _ _ _ _ _ Hi)].
+    assert (Et' : sname t = sname t0 /\ srev t = srev t0 /\ ds_sel t = ds_sel t0) by (unfold sid in Et; injection Et; auto).
+    destruct Et' as (Nt & Rt & St). rewrite Rt, Rs. apply (Hmax t0 Ht0); congruence.
+  Qed.
+
+  Lemma created_name_fold : forall evs acc n,
+    fold_left (fun acc e => match e with
+                            | DCreate n _ _ _ CrOk | DCreate n _ _ _ CrLost => Some n
+                            | _ => acc end) evs acc = Some n ->
+    acc = Some n \/ exists phs prev h cr, In (DCreate n phs prev h cr) evs /\ (cr = CrOk \/ cr = CrLost).
+  Proof.
+    induction evs as [|e r IH]; cbn [fold_left]; intros acc n H; [now left|].
+    destruct (IH _ _ H) as [Hacc|(a & b & c & d & Hi & Hr)]; [|right; exists a, b, c, d; split; [now right|assumption]].
+    destruct e as [n0 phs prev h cr| | |]; try (now left).
+    destruct cr; try (now left); injection Hacc as <-; right; exists phs, prev, h; eexists; (split; [now left|]); auto.
+  Qed.
+
+  Lemma created_name_some evs n : created_name evs = Some n ->
+    exists phs prev h cr, In (DCreate n phs prev h cr) evs /\ (cr = CrOk \/ cr = CrLost).
+  Proof. intros H. destruct (created_name_fold _ _ _ H) as [H0|H0]; [discriminate|exact H0]. Qed.
+
+  (** A pass that creates an ObjectSet leaves the template matched. *)
+  Lemma creating_pass_matches fault w w' evs r n :
+    Inv w -> dep_pass hash fault false w = (w', evs, r) -> created_name evs = Some n -> matched w'.
+  Proof.
+    intros HI Hp Hcn. pose proof (i_nodup _ HI) as U1.
+    destruct (created_name_some _ _ Hcn) as (phs & prev & h & cr & Hi & Hcr).
+    destruct (create_justified _ _ _ _ _ _ _ _ _ _ _ _ U1 Hp Hi) as (_ & _ & Hn0 & Hhc & Hn & Hh & _ & _).
+    pose proof (dep_pass_justified _ _ _ _ _ _ _ U1 Hp) as HF. rewrite Forall_forall in HF.
+    destruct (dep_pass_frame _ _ _ _ _ _ _ Hp) as (_ & Hold & _ & Hnew & _ & (_ & _ & _ & Hdg & _ & _ & Hcc)).
+    destruct (Hnew _ _ _ _ _ Hi Hcr) as (x' & Hx' & Nx & Hc & Dx).
+    { intros dr Hd. specialize (HF _ Hd). cbn in HF. destruct HF as (_ & _ & Hc & _). congruence. }
+    assert (Hcc' : d_cc (dw_dep w') = d_cc (dw_dep w)).
+    { destruct Hcc as [Hcc|(h0 & cs & rv & co & sr & His)]; [assumption|].
+      destruct (dep_pass_bump _ _ _ _ _ _ _ _ _ _ _ _ _ Hp His) as [Hc0|(_ & Hall)]; [assumption|].
+      specialize (Hall _ _ _ _ _ Hi). destruct Hcr; congruence. }
+    pose proof Hc as (rr & Hix & _ & R0 & Sx & (hx & Hhx)).
+    destruct (create_justified _ _ _ _ _ _ _ _ _ _ _ _ U1 Hp Hix) as (_ & _ & _ & _ & _ & Hh' & _ & _). rewrite Hhx in Hh'.
+    exists x'. unfold cur_hash in *. rewrite Hdg, Hcc'. split; [assumption|]. split; [assumption|]. split; [congruence|]. split; [assumption|].
+    intros t Ht Hst Hne. split; [|now left].
+    destruct (Hold t Ht) as [(t0 & Ht0 & Et)|Hct].
+    - assert (Et' : srev t = srev t0 /\ ds_sel t = ds_sel t0) by (unfold sid in Et; injection Et; auto). destruct Et' as (Rt & St).
+      rewrite Rt. apply Hn0. apply listed_fresh_iff. split; [assumption|congruence].
+    - exfalso. destruct (created_event _ _ Hct) as (r2 & Hi2).
+      destruct (create_justified _ _ _ _ _ _ _ _ _ _ _ _ U1 Hp Hi2) as (_ & _ & _ & _ & Hn2 & _). congruence.
+  Qed.
+
+  (** Matched-ness survives every step of the ObjectSet side and every deployment edit that keeps the template. *)
+  Lemma matched_oset_step w w' :
+    Inv w -> matched w -> oset_step (dw_sets w) (dw_sets w') ->
+    d_digest (dw_dep w') = d_digest (dw_dep w) -> d_cc (dw_dep w') = d_cc (dw_dep w) -> matched w'.
+  Proof.
+    intros HI (s & Hs & Hsel & Hh & Hdel & Hmax) (_ & Hold & Hkeep) Hdg Hcc.
+    destruct (Hkeep s Hs) as [(s' & Hs' & Ns & Ps & Ss & Hs2 & Ds & Rs)|Hd]; [|congruence].
+    exists s'. unfold cur_hash in *. rewrite Hdg, Hcc. split; [assumption|]. split; [congruence|]. split; [congruence|]. split; [congruence|].
+    intros t Ht Hst Hnet.
+    destruct (Hold t Ht) as (t0 & Ht0 & Nt & Pt & St & _ & _ & Rt).
+    assert (Hne : sname t0 <> sname s) by congruence. assert (Hst0 : ds_sel t0 = true) by congruence.
+    destruct (Hmax t0 Ht0 Hst0 Hne) as (Hm & Hlt).
+    assert (Rt' : srev t = srev t0) by (destruct Rt as [Rt|(Rt0 & _)]; congruence). rewrite Rt'. split; [assumption|].
+    destruct Rs as [Rs|(Rs0 & Rsn & Rsb)]; [rewrite Rs; exact Hlt|right].
+    apply Rsb; [assumption|]. destruct (i_zero _ HI s t0 Hs Ht0 Hsel Hst0 (not_eq_sym Hne) Rs0) as (_ & Hin). exact Hin.
+  Qed.
+
+  (** *** Counting creations and template changes along a history *)
+  Definition creates_b (w : dworld) (s : step) : bool :=
+    match s with
+    | SDep stale fault => let '(_, evs, _) := dep_pass hash fault stale w in match created_name evs with Some _ => true | None => false end
+    | _ => false
+    end.
+  Definition changes_b (w : dworld) (s : step) : bool :=
+    match s with
+    | SEdit dg phs => negb (dg =? d_digest (dw_dep w)) || negb (phases_eqb phs (d_phases (dw_dep w)))
+    | _ => false
+    end.
+  Fixpoint count_creates (w : dworld) (h : list step) : nat :=
+    match h with [] => O | s :: r => ((if creates_b w s then 1 else 0) + count_creates (do_step hash w s) r)%nat end.
+  Fixpoint count_changes (w : dworld) (h : list step) : nat :=
+    match h with [] => O | s :: r => ((if changes_b w s then 1 else 0) + count_changes (do_step hash w s) r)%nat end.
+
+  Lemma matched_step w s : Inv w -> matched w -> ok_step s -> changes_b w s = false ->
+    creates_b w s = false /\ matched (do_step hash w s).
+  Proof.
+    intros HI HM Hok Hch. destruct s as [dg phs|b|l|stale fault|force n|n|n cs co coset|n|k a].
+    - split; [reflexivity|]. cbn in Hch. cbn [do_step]. rewrite Hch. exact HM.
+    - split; [reflexivity|]. eapply matched_oset_step; eauto; apply (do_step_oset hash w (SPause b)); auto; intros; discriminate.
+    - split; [reflexivity|]. eapply matched_oset_step; eauto; apply (do_step_oset hash w (SLimit l)); auto; intros; discriminate.
+    - cbn in Hok. subst stale. cbn [creates_b do_step]. destruct (dep_pass hash fault false w) as [[w' evs] r] eqn:Ep.
+      destruct (matched_dep_pass _ _ _ _ _ HI HM Ep) as (Hnc & HM'). split; [|exact HM'].
+      destruct (created_name evs) as [n|] eqn:Ec; [|reflexivity].
+      destruct (created_name_some _ _ Ec) as (a & b & c & d & Hi & _). elim (Hnc _ _ _ _ _ Hi).
+    - destruct Hok.
+    - split; [reflexivity|]. eapply matched_oset_step; eauto; apply (do_step_oset hash w (SRev n)); auto; intros; discriminate.
+    - split; [reflexivity|]. eapply matched_oset_step; eauto; apply (do_step_oset hash w (SStat n cs co coset)); auto; intros; discriminate.
+    - split; [reflexivity|]. eapply matched_oset_step; eauto; apply (do_step_oset hash w (SVanish n)); auto; intros; discriminate.
+    - split; [reflexivity|]. eapply matched_oset_step; eauto; apply (do_step_oset hash w (SMember k a)); auto; intros; discriminate.
+  Qed.
+
+  Lemma creating_step_matches w s : Inv w -> ok_step s -> creates_b w s = true -> matched (do_step hash w s).
+  Proof.
+    intros HI Hok Hc. destruct s; try discriminate. cbn in Hok. subst stale. cbn [creates_b do_step] in *.
+    destruct (dep_pass hash fault false w) as [[w' evs] r] eqn:Ep. destruct (created_name evs) as [n|] eqn:Ec; [|discriminate].
+    eapply creating_pass_matches; eauto.
+  Qed.
+
+  Lemma creates_bounded h : forall w, Inv w -> Forall ok_step h ->
+    (matched w -> (count_creates w h <= count_changes w h)%nat) /\ (count_creates w h <= 1 + count_changes w h)%nat.
+  Proof.
+    induction h as [|s r IH]; intros w HI HF; [cbn; split; intros; lia|]. inversion HF as [|? ? Hok HFr]; subst.
+    pose proof (inv_step hash w s HI Hok) as HI'. destruct (IH _ HI' HFr) as (IHm & IHb). cbn [count_creates count_changes].
+    destruct (changes_b w s) eqn:Ech.
+    - assert (Hnc : creates_b w s = false) by (destruct s; try reflexivity; discriminate). rewrite Hnc. split; intros; lia.
+    - split.
+      + intros HM. destruct (matched_step w s HI HM Hok Ech) as (-> & HM'). specialize (IHm HM'). lia.
+      + destruct (creates_b w s) eqn:Ecr; [|lia]. pose proof (creating_step_matches w s HI Hok Ecr) as HM'. specialize (IHm HM'). lia.
+  Qed.
+End ExactlyOne.
